@@ -410,7 +410,7 @@ func parseEnvTok(t string) (envTok, bool) {
 		}
 	}
 	fmt.Sscan(t[i+1:], &e.host)
-	return e, strings.IndexByte("durcka", e.act) >= 0
+	return e, strings.IndexByte("durckax", e.act) >= 0
 }
 
 func (d scenario) op() string {
@@ -787,6 +787,13 @@ func runEx(d scenario) (answer string) {
 	}
 	envFailed := int32(0)
 	applyEnv := func(e envTok) {
+		if e.act == 'x' {
+			// the statement's context ends here: between the attempt and the retry decision
+			if !e.init {
+				cancelCtx()
+			}
+			return
+		}
 		ip := fmt.Sprintf("10.0.0.%d", e.host)
 		sp, ok := spec[ip]
 		if !ok {
@@ -1032,8 +1039,21 @@ func exec(op string) string {
 		if d, ok := parseEx(op); ok {
 			return runEx(d)
 		}
-	case "spec", "specr":
+	case "spec", "specr", "specc", "met":
 		return "accept"
+	case "rt":
+		if len(w) == 3 {
+			return runRT(w)
+		}
+	case "att":
+		if len(w) == 4 {
+			return runAtt(w)
+		}
+	case "kf-down-unlogged":
+		// UNLOGGED_BATCH write timeout that no replica acknowledged: what does the policy answer, what does its doc say
+		return "code=" + rtName((&gocql.DowngradingConsistencyRetryPolicy{}).GetRetryType(errOf("wt:UNLOGGED_BATCH:0:1"))) + " documented=rethrow"
+	case "kf-batch-loser":
+		return kfBatchLoser()
 	case "kf-d10":
 		// SimpleRetryPolicy{1}, query NOT marked idempotent, first attempt fails: is the write sent again?
 		d := scenario{kind: "q", ctor: "s", policy: "simple:1", polAt: "q", obs: "-", idem: "0", sp: "-", ctx: "-", cons: 1, api: "e", reps: 1,
@@ -1293,6 +1313,46 @@ func genEnv(r *vh.Rng, d *scenario, focus bool) {
 	}
 }
 
+// cancelGrid: the statement's context ends between an attempt and the retry decision x every retry decision x
+// statement kinds, observed or not, once or twice executed — the same scenarios for every seed and tier
+func cancelGrid() []scenario {
+	var out []scenario
+	kinds := []string{"q", "bl", "bu", "bc"}
+	n := 0
+	for _, x := range []struct {
+		policy string
+		fates  []string
+	}{
+		{"down:2.1", []string{"e7", "e7b", "e1"}},          // Retry on the same host
+		{"down:3.2.1", []string{"e9", "e5", "e9c"}},        // next host, Retry, next host
+		{"custom:4:nnnnnnnnnnn", []string{"e9", "e2", "e4"}}, // next host
+		{"custom:4:ttttttttttt", []string{"e9"}},           // Rethrow: the caller gets the error, not the context's
+		{"custom:4:iiiiiiiiiii", []string{"e3"}},
+		{"custom:4:uuuuuuuuuuu", []string{"e3"}},
+		{"simple:3", []string{"e9", "e2", "e9b"}},
+		{"simple:0", []string{"e9"}},
+		{"exp:2", []string{"e9", "e9b"}},
+		{"none", []string{"e9"}},
+	} {
+		for at := 0; at <= 1; at++ {
+			for nh := 1; nh <= 2; nh++ {
+				d := scenario{kind: kinds[n%4], ctor: "s", policy: x.policy, polAt: []string{"q", "s"}[n/4%2], obs: []string{"-", "q", "s"}[n%3],
+					idem: "1", sp: "-", ctx: []string{"c", "d"}[n%2], cons: 4, api: "e", reps: 1 + n/2%2, outcomes: x.fates,
+					env: []string{fmt.Sprintf("%dx0", at)}}
+				if d.kind != "q" {
+					d.idem = strings.Repeat("1", 1+n%3)
+				}
+				for h := 1; h <= nh; h++ {
+					d.hosts = append(d.hosts, fmt.Sprintf("%d:1:1", h))
+				}
+				out = append(out, d)
+				n++
+			}
+		}
+	}
+	return out
+}
+
 // envGrid: every way a host becomes unusable x every retry decision x 1..3 hosts x where it strikes, after the
 // scripted failures (later requests would succeed) — the same scenarios for every seed and tier.
 func envGrid() []scenario {
@@ -1407,12 +1467,16 @@ func main() {
 	if tier == "thorough" {
 		runs = 24000
 	}
-	scen := append(append(budgetGrid(), envGrid()...), idemGrid()...)
+	scen := append(append(append(budgetGrid(), envGrid()...), idemGrid()...), cancelGrid()...)
 	for i := 0; i < runs; i++ {
 		d := genScenario(r)
 		// a third of the scenarios run in a changing environment, half of those bent towards same-host retries
 		if x := r.Intn(6); x < 2 {
 			genEnv(r, &d, x == 0)
+		}
+		// a third of the statements whose context can end: it ends between an attempt and its retry decision
+		if (d.ctx == "c" || d.ctx == "d") && !(specIdempotent(d.idem) && (d.sp == "1" || d.sp == "2")) && r.Intn(3) == 0 {
+			d.env = append(d.env, fmt.Sprintf("%dx0", r.Intn(len(d.outcomes)+1)))
 		}
 		scen = append(scen, d)
 	}
@@ -1449,6 +1513,8 @@ func main() {
 		}
 		out.Case(d.op(), results[i], cls, len(d.hosts) > 0)
 	}
+	policyOps(r, out)
+	metOps(r, out, metRuns(tier))
 	kinds := []string{"q", "bl", "bu", "bc"}
 	type specScn struct {
 		kind, idem string
@@ -1500,8 +1566,39 @@ func main() {
 		}
 		out.Case(op, "accept", "specr/"+c.kind+"/"+strings.SplitN(c.policy, ":", 2)[0]+"/"+c.mode, true)
 	}
+	// speculative executions stepped one micro-step at a time, cancellation at every point: a fixed grid for every
+	// seed, then random schedules
+	cgrid := speccGrid()
+	for i := 0; i < len(cgrid)+speccRuns(tier) && atomic.LoadInt64(&hung) == 0; i++ {
+		var c speccScn
+		if i < len(cgrid) {
+			c = cgrid[i]
+		} else {
+			c = genSpecc(r)
+		}
+		op := runSpecCancel(c, r)
+		if strings.HasPrefix(op, "fatal") {
+			fmt.Fprintln(os.Stderr, "c13:", op)
+			os.Exit(3)
+		}
+		out.Case(op, "accept", "specc/"+c.kind+"/"+strings.SplitN(c.policy, ":", 2)[0], true)
+	}
 	out.Close(map[string]interface{}{"concurrent_attempts_counted": atomic.LoadInt64(&concAttempts),
 		"barrier_rounds": atomic.LoadInt64(&barRounds), "barrier_rounds_releasing_several_answers": atomic.LoadInt64(&barMulti)})
+}
+
+func metRuns(tier string) int {
+	if tier == "thorough" {
+		return 1200
+	}
+	return 80
+}
+
+func speccRuns(tier string) int {
+	if tier == "thorough" {
+		return 900
+	}
+	return 60
 }
 
 func specrRuns(tier string) int {
@@ -1608,6 +1705,21 @@ func probe() {
 		fmt.Sscan(os.Args[2], &n)
 	}
 	t0 := time.Now()
+	if len(os.Args) > 3 && os.Args[3] == "cancel" {
+		g := speccGrid()
+		for i := 0; i < len(g)+n; i++ {
+			var c speccScn
+			if i < len(g) {
+				c = g[i]
+			} else {
+				c = genSpecc(r)
+			}
+			t := time.Now()
+			op := runSpecCancel(c, r)
+			fmt.Printf("%6.1fms %s\n", float64(time.Since(t).Microseconds())/1000, op)
+		}
+		return
+	}
 	for i := 0; i < n; i++ {
 		c := genSpecr(r, i)
 		t := time.Now()
